@@ -23,7 +23,8 @@ the id of a block (it stands for the empty previous-hash of genesis). The two ke
 chain DB that matter are modelled as total functions (`blocks`, `byNo`, `txIdx`, `rcpt`).
 The model transcribes what the code does, including: the bad-block cache receives the
 *arriving* block even when the block that failed is a resolved orphan or a block of a reorganisation;
-`rollback` moves the state root to the fork point and nothing moves it back when roll-forward fails.
+`rollback` moves the state root to the fork point; when roll-forward fails `reorg` puts it back to the old best
+block's root (repo commit 9256a8e2), the receipts and `MemPoolDel`s of the blocks that did execute stay.
 -/
 
 namespace Aergo.Chain
@@ -221,7 +222,7 @@ def reorg (N : Node) (top : Block) : ReorgRes × Node :=
     else
       let N1 := { N with sdbRoot := g.brStart.claimed }    -- rollback
       match rollforward exec N1 g.newB.reverse with
-      | (false, N2) => (.failed, N2)
+      | (false, N2) => (.failed, { N2 with sdbRoot := N.best.claimed })   -- state root back to the old best block (9256a8e2)
       | (true, N2) =>
         match swapChain N2 g top with
         | (true, N3) => (.done, N3)
